@@ -1,4 +1,5 @@
 import UscxmlVerif.Model.Json
+import UscxmlVerif.Proofs.JsonBounds
 /-!
 # C15 — Data ↔ JSON conversion is lossless and its parser robust
 
@@ -109,5 +110,16 @@ theorem strScan_escape (s rest : Bytes) (hs : ∀ b ∈ s, b ≠ 0) (pre : Bytes
         simp only [List.length_append, List.length_cons, List.length_nil] at this
         rw [this]
         simp; omega
+
+/-- **parser robustness**: for every byte string whatsoever, `Data::fromJSON` - the trimming, the token-budget loop around
+jsmn, the tree builder with its two stacks, all array accesses and `back()`/`pop_back()` calls modelled with checked
+indices - yields a value, "not JSON" or an error; it never reads outside the token array and never pops an empty stack -/
+theorem fromJSON_no_oob (input : Bytes) : ∀ r, fromJSON input = r → r ≠ .oob :=
+  Proofs.JsonBounds.fromJSON_no_oob input
+
+/-- the three outcomes do occur (the theorem is not about an empty domain) -/
+example : (match fromJSON [123, 125] with | .value _ => true | _ => false) = true := by decide
+example : (match fromJSON [91, 49, 44] with | .error _ => true | _ => false) = true := by decide
+example : (match fromJSON [52, 50] with | .notJson => true | _ => false) = true := by decide
 
 end UscxmlVerif.Properties.C15
